@@ -435,3 +435,34 @@ def rule_hint_protocol(check, rule):
         else:
             check.violation(rule, site_of(fi, fi.node), 'bound-method route is %s' % show(v)[:160], key=key,
                             witness='sigtools.signature(obj.method) must drop self and resolve self.other')
+
+
+def rule_get_ast_duck_typed(check, rule):
+    """C06.R4b: what reaches get_ast() is whatever carries the code object: a function, but also the *bound method* a
+    translated method's hint hands over (`self.func` of a bound translator).  get_ast must decide by the presence of
+    `__code__`, not by a type test (`inspect.isfunction`, `isinstance(func, FunctionType)`): such a test turns discovery off
+    for modifiers-wrapped methods looked up on an instance or class."""
+    repo = check.repo
+    fi = repo.func('_util:get_ast', required=False)
+    if fi is None:
+        raise Inconclusive('_util.get_ast vanished')
+    check.analysed(fi)
+    pname = fi.params()[0][0]
+    key = '_util:get_ast|duck-typed'
+    bad = None
+    for n in ast.walk(fi.node):
+        if isinstance(n, ast.Call):
+            f = norm(n.func)
+            if (f.split('.')[-1] in ('isfunction', 'ismethod', 'isroutine') or (f == 'isinstance' and len(n.args) == 2 and 'Function' in norm(n.args[1]))) \
+                    and n.args and isinstance(n.args[0], ast.Name) and n.args[0].id == pname:
+                bad = n
+    reads_code = any(isinstance(n, ast.Attribute) and n.attr == '__code__' for n in ast.walk(fi.node))
+    if bad is not None:
+        check.violation(rule, site_of(fi, bad), 'get_ast decides by %s whether its argument has source: the bound method handed over by the hint of a '
+                        'translated method is not a function, so discovery is switched off for kwoargs/posoargs-wrapped methods looked up on an '
+                        'instance or class' % norm(bad)[:50], key=key,
+                        witness="class K:\n    @kwoargs('k')\n    def m(self, *args, k=1, **kwargs): return target(*args, **kwargs)\nsigtools.signature(K().m)")
+    elif reads_code:
+        check.holds(rule, site_of(fi, fi.node), 'get_ast accepts anything that exposes __code__', key=key)
+    else:
+        check.inconclusive(rule, site_of(fi, fi.node), 'get_ast no longer reads __code__', key=key)
